@@ -11,4 +11,4 @@ def register(S):
                         "plain_and_encodable": ("plain(result) and sized(result)", ["C03", "C08", "C01"]),
                         # T-ID: the answer is a function of the object (and differs for simultaneously live objects)
                         "assumed_deterministic": ("same(result, id_pack(obj))", ["C03", "C10"])},
-               raises={}, modifies=[])
+               raises={}, modifies=[], unfold_depth=3)
